@@ -70,7 +70,7 @@ contract(
     ensures=[("len", "len(self.sb) == self.size"),
              ("frame", "self.size == old(self.size) and self.resolution == old(self.resolution) "
                        "and self.startDate == old(self.startDate) and self.endDate == old(self.endDate)")],
-    modifies=["Scoreboard.sb", "$len"],
+    modifies=["Scoreboard.sb", "$region:Scoreboard.sb"],
 )
 
 contract(
